@@ -223,8 +223,42 @@ def replay(data):
     from pytableaux.logics import registry
     registry.import_all()
     if data['kind'] == 'lemma':
-        r = lemma_unit((data['L'], data['W']))
-        return bool([b for b in r['bad'] if b != 'unknown']), f'{data["L"]} extends {data["W"]}: {r["bad"]}'
+        # brute force, no solver: enumerate every map between the value sets
+        SL, SW = LogicSem(data['L']), LogicSem(data['W'])
+        which = data.get('which', 'spec')
+        if which == 'frames':
+            r = lemma_unit((data['L'], data['W']))
+            return not r['frames'], f'{data["L"]} extends {data["W"]}: frames included = {r["frames"]}'
+        TL, TW = SL.tables(which), SW.tables(which)
+        dL, dW = set(SL.designated(which)), set(SW.designated(which))
+        found = None
+        for e in itertools.product(range(SW.n), repeat=SL.n):
+            ok = all((i in dL) == (e[i] in dW) for i in range(SL.n))
+            if ok:
+                for opname in spec.OPERATORS:
+                    for k, v in TL[opname].items():
+                        if e[v] != TW[opname][tuple(e[i] for i in k)]:
+                            ok = False
+                            break
+                    if not ok:
+                        break
+            if ok:
+                for kind, key in (('E', 'quant'), ('A', 'quant'), ('E', 'modal_flavour'), ('A', 'modal_flavour')):
+                    fL, fW = SL.info[key], SW.info[key]
+                    if fL is None or fW is None:
+                        continue
+                    for size in range(0, 4):
+                        for vals in itertools.combinations_with_replacement(range(SL.n), size):
+                            a = SL.idx[spec.generalize(SL.base, fL, kind, [SL.names[i] for i in vals])]
+                            b = SW.idx[spec.generalize(SW.base, fW, kind, [SW.names[e[i]] for i in vals])]
+                            if e[a] != b:
+                                ok = False
+            if ok:
+                found = e
+                break
+        return found is None, (f'{data["L"]} extends {data["W"]} ({which} tables): '
+                               + ('no map between the value sets commutes with the operators, the generalised '
+                                  'connectives and designation' if found is None else f'embedding {found} exists'))
     tw = prover.outcome(prover.build(data['W'], data['argstr'], data.get('seed', 0), max_steps=400))
     tl = prover.outcome(prover.build(data['L'], data['argstr'], data.get('seed', 0), max_steps=400))
     return tw == 'valid' and tl == 'invalid', f'{data["argstr"]}: {data["W"]} {tw}, {data["L"]} {tl}'
